@@ -133,6 +133,7 @@ func ruleSibling(p *Program, r *Result) {
 			"requests sent in the clear are exempted first; every other request goes straight to the per-type decoder trials (no other early exit)",
 			"the detector does not start with 'clear flag -> no mismatch' followed directly by the dispatch on the header type: some obfuscated requests skip detection, or cleartext ones are judged")
 		cases := headerTypeCases(D)
+		table, tableOK, tableWhy := tableDrivenDetector(D, cases)
 		for _, tn := range typeNames {
 			ck := key + ":" + tn
 			cb, ok := cases[typeVal[tn]]
@@ -142,6 +143,17 @@ func ruleSibling(p *Program, r *Result) {
 			}
 			tried, calls := decodersTriedUnder(D, cb)
 			want := bodiesByType[tn]
+			if len(tried) == 0 && table != nil {
+				// the per-type lists are data: one loop tries every entry of the list chosen by the header type
+				tried = table[typeVal[tn]]
+				r.cond(strings.Join(tried, ",") == strings.Join(want, ","), "R-SIBLING", ck+":decoders", p.Pos(cb.Instrs[0].Pos()),
+					fmt.Sprintf("for %s packets the detector's candidate list is exactly %v, and one loop tries every candidate", tn, want),
+					fmt.Sprintf("for %s packets the detector's candidate list is %v but the bodies of that type are %v: a valid request of an untried layout is flagged, or a mismatch goes unnoticed", tn, tried, want))
+				r.cond(tableOK, "R-SIBLING", ck+":threshold", p.Pos(cb.Instrs[0].Pos()),
+					fmt.Sprintf("a mismatch is declared iff the count of length-sum errors equals the length of the candidate list (%d): the count is incremented only on errors.As(err, *BadSecretErr) of each trial, and every candidate is tried once", len(want)),
+					"the candidate loop does not count exactly the trials failing with the length-sum error against the length of the list: "+tableWhy)
+				continue
+			}
 			r.cond(strings.Join(tried, ",") == strings.Join(want, ","), "R-SIBLING", ck+":decoders", p.Pos(cb.Instrs[0].Pos()),
 				fmt.Sprintf("for %s packets the detector tries exactly %v", tn, want),
 				fmt.Sprintf("for %s packets the detector tries %v but the bodies of that type are %v: a valid request of an untried layout is flagged, or a mismatch goes unnoticed", tn, tried, want))
@@ -528,4 +540,205 @@ func underInputLengthGuard(b *ssa.BasicBlock, fn *ssa.Function) bool {
 		return (isLenOfInput(bo.X) && cy) || (isLenOfInput(bo.Y) && cx)
 	}
 	return false
+}
+
+// tableDrivenDetector recognises the detector written with data: each header-type case selects a literal list
+// of fresh body values ([]EncoderDecoder{&T1{}, &T2{}}), one loop decodes the packet body into every element
+// of the selected list, counts the trials whose error is a BadSecretErr, and the count is compared with the
+// length of the list. Returns the body type names per header type value, and whether the loop and the
+// comparison have that exact shape.
+func tableDrivenDetector(D *ssa.Function, cases map[int64]*ssa.BasicBlock) (map[int64][]string, bool, string) {
+	// the literal lists
+	litNames := func(v ssa.Value) ([]string, bool) {
+		sl, ok := v.(*ssa.Slice)
+		if !ok || sl.Low != nil || sl.High != nil {
+			return nil, false
+		}
+		arr, ok := sl.X.(*ssa.Alloc)
+		if !ok {
+			return nil, false
+		}
+		at, ok := arr.Type().(*types.Pointer).Elem().Underlying().(*types.Array)
+		if !ok {
+			return nil, false
+		}
+		names := make([]string, at.Len())
+		for _, rf := range refsOf(arr) {
+			switch x := rf.(type) {
+			case *ssa.IndexAddr:
+				k, okk := constInt(x.Index)
+				if !okk || k < 0 || k >= at.Len() {
+					return nil, false
+				}
+				for _, r2 := range refsOf(x) {
+					st, ok := r2.(*ssa.Store)
+					if !ok || st.Addr != ssa.Value(x) {
+						return nil, false
+					}
+					mi, ok := st.Val.(*ssa.MakeInterface)
+					if !ok {
+						return nil, false
+					}
+					a, ok := mi.X.(*ssa.Alloc)
+					if !ok || len(allocStores(a)) > 0 {
+						return nil, false
+					}
+					n := namedOf(a.Type().(*types.Pointer).Elem())
+					if n == nil || names[k] != "" {
+						return nil, false
+					}
+					names[k] = n.Obj().Name()
+				}
+			case *ssa.Slice, *ssa.DebugRef:
+			default:
+				return nil, false
+			}
+		}
+		for _, n := range names {
+			if n == "" {
+				return nil, false
+			}
+		}
+		return names, true
+	}
+	// the trial: Unmarshal(p.Body, list[i]) inside a loop over the whole list
+	var trial *ssa.Call
+	var list ssa.Value
+	for _, c := range allCalls(D) {
+		call, ok := c.(*ssa.Call)
+		if !ok {
+			continue
+		}
+		f := call.Common().StaticCallee()
+		if f == nil || f.Name() != "Unmarshal" || f.Signature.Recv() != nil || f.Pkg == nil || f.Pkg.Pkg.Path() != modPath || len(call.Common().Args) != 2 {
+			continue
+		}
+		u, ok := call.Common().Args[1].(*ssa.UnOp)
+		if !ok || u.Op != token.MUL {
+			continue
+		}
+		ia, ok := u.X.(*ssa.IndexAddr)
+		if !ok || !isAscendingIndex(ia.Index) {
+			continue
+		}
+		if trial != nil {
+			return nil, false, "more than one trial loop"
+		}
+		trial, list = call, ia.X
+	}
+	if trial == nil {
+		return nil, false, ""
+	}
+	out := map[int64][]string{}
+	srcs := phiSources(list)
+	for _, src := range srcs {
+		names, ok := litNames(src)
+		if !ok {
+			return nil, false, "the candidate list is not chosen among literal lists of fresh body values"
+		}
+		sort.Strings(names)
+		blk := src.(ssa.Instruction).Block()
+		found := false
+		for tv, cb := range cases {
+			if cb == blk || cb.Dominates(blk) {
+				if _, dup := out[tv]; dup {
+					return nil, false, "two candidate lists for one header type"
+				}
+				out[tv] = names
+				found = true
+			}
+		}
+		if !found {
+			return nil, false, "a candidate list is built outside the header-type cases"
+		}
+	}
+	if !fieldIsBodyOfParamPacket(trial.Common().Args[0]) {
+		return out, false, "the trials do not decode the packet's body"
+	}
+	// the loop visits every index below len(list): its head test compares the index with len(list)
+	visitsAll := false
+	var exitBlock *ssa.BasicBlock
+	for _, b := range D.Blocks {
+		iff, ok := b.Instrs[len(b.Instrs)-1].(*ssa.If)
+		if !ok || !blockReachFromSelf(b) {
+			continue
+		}
+		bo, ok := iff.Cond.(*ssa.BinOp)
+		if !ok || bo.Op != token.LSS || !isAscendingIndex(bo.X) {
+			continue
+		}
+		if lc, ok := bo.Y.(*ssa.Call); ok {
+			if bi, ok := lc.Common().Value.(*ssa.Builtin); ok && bi.Name() == "len" && lc.Common().Args[0] == list {
+				if b.Succs[0] == trial.Block() || b.Succs[0].Dominates(trial.Block()) {
+					visitsAll = true
+					exitBlock = b.Succs[1]
+				}
+			}
+		}
+	}
+	if !visitsAll {
+		return out, false, "the loop does not run over every index below len(list)"
+	}
+	// no other way out of the loop than its head
+	for _, b := range D.Blocks {
+		if !blockReachFromSelf(b) || !(trial.Block() == b || blockReach(b, nil)[trial.Block()]) {
+			continue
+		}
+		if _, isRet := b.Instrs[len(b.Instrs)-1].(*ssa.Return); isRet {
+			return out, false, "the loop is left early"
+		}
+	}
+	// the comparison after the loop: count == len(list) leads to the reply
+	okCmp := false
+	for _, b := range D.Blocks {
+		if !(exitBlock == b || exitBlock.Dominates(b)) {
+			continue
+		}
+		iff, ok := b.Instrs[len(b.Instrs)-1].(*ssa.If)
+		if !ok {
+			continue
+		}
+		bo, ok := iff.Cond.(*ssa.BinOp)
+		if !ok || (bo.Op != token.EQL && bo.Op != token.NEQ) {
+			continue
+		}
+		cnt, ln := bo.X, bo.Y
+		if _, isCall := cnt.(*ssa.Call); isCall {
+			cnt, ln = ln, cnt
+		}
+		lc, ok := ln.(*ssa.Call)
+		if !ok {
+			continue
+		}
+		if bi, ok := lc.Common().Value.(*ssa.Builtin); !ok || bi.Name() != "len" || lc.Common().Args[0] != list {
+			continue
+		}
+		if _, isPhi := cnt.(*ssa.Phi); !isPhi || !countIncrementsUnderAs(cnt, []*ssa.Call{trial}) {
+			return out, false, "the value compared with len(list) is not the count of trials failing with the length-sum error"
+		}
+		eq := b.Succs[0]
+		ne := b.Succs[1]
+		if bo.Op == token.NEQ {
+			eq, ne = ne, eq
+		}
+		// the unequal edge answers 'no mismatch'
+		if ret, ok := ne.Instrs[len(ne.Instrs)-1].(*ssa.Return); ok && len(ret.Results) == 2 && isNilConst(ret.Results[0]) && isNilConst(ret.Results[1]) && len(ne.Instrs) <= 2 {
+			okCmp = true
+		}
+		_ = eq
+	}
+	if !okCmp {
+		return out, false, "no 'count == len(list)' test after the loop whose unequal edge answers 'no mismatch'"
+	}
+	return out, true, ""
+}
+
+// fieldIsBodyOfParamPacket: v is p.Body of a *Packet parameter.
+func fieldIsBodyOfParamPacket(v ssa.Value) bool {
+	f, base, ok := loadedField(v)
+	if !ok || f.Name() != "Body" {
+		return false
+	}
+	_, isParam := base.(*ssa.Parameter)
+	return isParam && isPacketPtr(base.Type())
 }
